@@ -189,6 +189,16 @@ func genOutboxCase(g *prng.R, modes, protos []string) c03Case {
 			body["object"] = objs
 		}
 	}
+	// an unusual stored sender: its actor document names no inbox (a
+	// send-only actor), or is of a non-actor type. Whether anything is
+	// delivered then is not C03's business; what is delivered must be clean
+	if g.Chance(1, 10) {
+		if g.Bool() {
+			sc.Store[alice()] = M{"@context": AS, "type": "Person", "id": alice(), "outbox": aliceOut()}
+		} else {
+			sc.Store[alice()] = M{"@context": AS, "type": "Service", "id": alice(), "name": "send-only"}
+		}
+	}
 	cs.HasHide = len(hiddenKeys(body, 0, 1, "")) > 0
 	// hidden recipients that must be served, from the final body only
 	cs.Hidden = nil
@@ -321,7 +331,7 @@ func init() {
 		}
 		n, nh := 6000, 2400
 		if thorough() {
-			n, nh = 60000, 20000
+			n, nh = 300000, 80000
 		}
 		var jobs []func()
 		for i := 0; i < n; i++ {
